@@ -157,6 +157,11 @@ def rewrites(rng, p, accepted, max_single=8):
                 out.append(("annotate-subset", scopegen.annotate(p, sub)))
         if sites:
             out.append(("annotate-all", scopegen.annotate(p, sites)))
+    if p.get("broken") == "underconstrained":
+        # genuinely underconstrained programs stay rejected when the *inferable* type arguments of
+        # the surrounding calls are spelled out: verdict only (the diagnostics may move)
+        for st in [x for x in scopegen.annotation_sites(p) if x[0] == "targs"][:max_single]:
+            out.append(("annotate-one:targs/verdict-only", scopegen.annotate(p, [st])))
     q = dict(p)
     q["split"] = [c for c in scopegen.LIB_ORDER if rng.chance(1, 2)] or ["Sh"]
     out.append(("split-modules", q))
@@ -210,7 +215,7 @@ def run(ctx):
     progs = []
     nprog = ctx.scale(200, 3000)
     for i in range(nprog):
-        broken = rng.weighted([(None, 7), ("unbound", 1), ("dup", 1), ("type", 1)])
+        broken = rng.weighted([(None, 14), ("unbound", 2), ("dup", 2), ("type", 2), ("underconstrained", 1)])
         p = scopegen.gen_program(rng.fork(), broken)
         progs.append(p)
         texts.append(scopegen.render(p)["Main"])
@@ -291,6 +296,8 @@ def run(ctx):
         hist["rewrite_instances"][kind] = hist["rewrite_instances"].get(kind, 0) + 1
         v1 = verdicts[pi]
         same = v1.split(" ")[:2] == v2.split(" ")[:2]
+        if kind.endswith("/verdict-only"):
+            same = v1.split(" ")[:1] == v2.split(" ")[:1]
         if v1.startswith("panic") or v2.startswith("panic"):
             same = v1 == v2
         if not same:
@@ -325,18 +332,19 @@ def run(ctx):
             if key[2] == "no-node":
                 beh["no_node"] += 1
                 continue
-            if o["compile"] == "panic":     # compiler crash on an accepted program: C03's business
+            if o["compile"] == "panic":
+                # a compiler crash that occurs in BOTH the original and the rewritten program is
+                # C03's business; one that a meaning-preserving rewrite makes appear / disappear is
+                # a behaviour change (C13). Normalise the message: it may quote locations / names.
                 beh["compiler_panics"] = beh.get("compiler_panics", 0) + 1
-                if kind == "original":
-                    orig[pi] = None
-                continue
+                key = ("panic", ("<compiler panic>",), "compiler-panic")
             if kind == "original":
                 orig[pi] = key
                 if len(samples) < 3:
                     samples.append({"program": scopegen.render(q)["Main"][-400:], "output": list(key[1])})
                 continue
             beh["compared"] += 1
-            if orig.get(pi) is not None and orig[pi] != key and ("beh" + kind) not in reported:
+            if pi in orig and orig[pi] != key and ("beh" + kind) not in reported:
                 reported.add("beh" + kind)
                 ctx.violation(f"rewrite `{kind}` changes the behaviour of an accepted program: {orig[pi]} -> {key}",
                               {"rewrite": kind, "original": scopegen.render(progs[pi]), "rewritten": scopegen.render(q),
